@@ -38,7 +38,7 @@ def main():
         last_frames = [l for l in tb.splitlines() if l.strip().startswith('File "')]
         if last_frames and any(lib in l for l in last_frames[-12:]) and 'MachineryError' not in tb:
             import hashlib
-            rdir = os.path.join(common.VERIF, 'replays', pid)
+            rdir = os.path.join(common.OUT, 'replays', pid)
             os.makedirs(rdir, exist_ok=True)
             path = os.path.join(rdir, 'exception_%s.json' % hashlib.sha256(tb.encode()).hexdigest()[:12])
             with open(path, 'w') as f:
